@@ -48,6 +48,10 @@ def run(tier, seed):
                "proved under C08")
     rep.bound("one generated configuration: three devices of two classes, three DeviceVars per class pair; all "
               "variable sizes symbolic")
+    # the sizes collect() reserves are those the accessors touch (C08's
+    # contract of ebpf.fmtsize, re-proved here)
+    from props.c08 import verify_fmtsize
+    verify_fmtsize(rep)
     saved = dict(api.REGISTRY)
     api.REGISTRY["ebpfcat.ebpfcat:ProcessSyncGroup.get_array"] = S.GetArray()
     try:
